@@ -20,6 +20,18 @@ def run(ver):
         ver.add_mc(res, f"MC_C16 {vals} MaxLen={maxlen} MaxPend={maxpend} MaxErr={maxerr} MaxSyncs={maxsyncs} OnlyCompliant={only}: every "
                         "accept-k/zero/pending/fail x write/sync/resume/drop schedule; 5 invariants (conditional on the compliance ghost)")
         core.replay_cases(ver, binp, res["out_path"], wd, tag)
+    # liveness of the same actions: a compliant caller that syncs whenever a frame is waiting, a sink that eventually accepts bytes
+    for vals in (["ValsA"] if ver.tier == "quick" else ["ValsA", "ValsB", "ValsC"]):
+        tag = f"mc_c16_live_{vals}"
+        res = core.run_tlc("MC_C16", "MC_C16L.cfg", wd, tag=tag, timeout=3000, workers=6, consts={"Vals": "<- " + vals, "MaxLen": "2"})
+        if not res["ok"]:
+            text = open(res["out_path"], errors="replace").read()
+            if "Temporal properties" in text and "violated" in text:
+                ver.mismatch("MC liveness", {"fam": "awrite", "name": "liveness", "config": vals, "obs": {"p": "temporal property violated in the model"}})
+            else:
+                core.tlc_failure(res, tag)
+        ver.add_mc(res, f"MC_C16L {vals}: under fairness every future completes and eventually the sink holds exactly the frames of all accepted values "
+                        "(EventuallyAllInSink, NoFutureHangs)")
     core.validate_runs(ver, binp, "c16", "Trace_C16", wd, tool_invariants=("CallerCompliant",))
     ver.assumptions += ["TLC evaluates the TLA+ operators correctly",
                         "the scripted AsyncWrite and the hand-polled no-op-waker executor of the harness are faithful to futures-io semantics",
